@@ -284,6 +284,48 @@ class RecheckCheck:
                                "fams": None if stride == 1 else
                                ["own-v1", "own-v2", "own-hybrid",
                                 "ref-V1-bep47"]})
+        # more than a thousand files, among them a run of > 1000 empty ones
+        for v in ([5] + [0] * 1098 + [7],
+                  e1.cyclic_vectors(1100, [3, 0, 0, 9, 1], offsets=[0])[0]):
+            gs.insert(0, {"scale": "S", "B": 2, "P": 4, "shape": "W1100",
+                          "sizes_list": [v], "seed": seed, "tier": tier,
+                          "maxdmg": 1, "dmg_stride": 1099,
+                          "fams": ["own-v1", "own-v2", "own-hybrid",
+                                   "ref-V1-bep47", "ref-V2",
+                                   "ref-HY-notrail"]})
+        # damage that is a tiny share of the payload (what rounding hides),
+        # every damage also through the command line
+        for sh, v in (("D2n", [3 * (1 << 20), 5]),
+                      ("D3", [5, 3 * (1 << 20), 7])):
+            for part in range(4):
+                gs.insert(0, {"scale": "R", "B": REAL_B, "P": 16384,
+                              "shape": sh, "sizes_list": [v], "seed": seed,
+                              "tier": tier, "maxdmg": 1, "allcli": True,
+                              "dmg_part": [part, 4],
+                              "fams": ["own-v1", "own-v2", "own-hybrid",
+                                       "ref-V1-bep47", "ref-HY-notrail"]})
+        # the same bytes in several files (v2: equal roots, shared layers)
+        for scale, B, P, sizes in (
+                ("S", 2, 4, [[s, s, s] for s in range(1, 12)]),
+                ("R", REAL_B, 32768, [[s, s, s] for s in (
+                    1, 16384, 32768, 32769, 65537)])):
+            for v in sizes:
+                gs.insert(0, {"scale": scale, "B": B, "P": P, "shape": "D3x",
+                              "sizes_list": [v], "cids": [0, 0, 0],
+                              "seed": seed, "tier": tier, "maxdmg": 1})
+        # a large piece length over files of several MiB (thresholds in bytes)
+        MiB = 1 << 20
+        for P in ([1 << 23] if quick else [1 << 22, 1 << 23]):
+            for v in ([[3 * MiB + 17, 6 * MiB + 5, MiB + 1]] if quick else
+                      [[3 * MiB + 17, 6 * MiB + 5, MiB + 1],
+                       [6 * MiB + 5, MiB + 1, 9 * MiB]]):
+                for part in range(8):
+                    gs.insert(0, {"scale": "R", "B": REAL_B, "P": P,
+                                  "shape": "D3", "sizes_list": [v],
+                                  "seed": seed, "tier": tier, "maxdmg": 1,
+                                  "dmg_part": [part, 8],
+                                  "fams": ["own-v1", "own-v2", "own-hybrid",
+                                           "ref-V1-bep47", "ref-HY-notrail"]})
         # environment faults during a recheck of damaged content (E2, one
         # fault per execution): an answer that comes back must still be right
         for fam in ("own-v1", "own-v2", "own-hybrid", "ref-V1-bep47"):
@@ -421,7 +463,25 @@ class RecheckCheck:
     def run_impl(self, mpath, content, cli=False):
         try:
             if cli:
-                return ("pct", float(tf.execute(["recheck", mpath, content])))
+                # the value returned and the line printed for the user
+                import io
+                import re
+                import sys
+                buf = io.StringIO()
+                self.last_printed = None
+                with tf.quiet():
+                    so = sys.stdout
+                    sys.stdout = buf
+                    try:
+                        val = float(tf.cli.execute(["recheck", mpath,
+                                                    content]))
+                    finally:
+                        sys.stdout = so
+                text = buf.getvalue().replace(mpath, " ").replace(content,
+                                                                  " ")
+                self.last_printed = [float(x) for x in re.findall(
+                    r"(?<![\w.])(\d+(?:\.\d+)?)\s*%", text)]
+                return ("pct", val)
             with tf.quiet():
                 c = tf.recheck.Checker(mpath, content)
                 if self.id == "C16":
@@ -451,6 +511,13 @@ class RecheckCheck:
             out.append(("C05", "intact-reported-below-100"))
         if not intact and want_pct < 100 and val >= 100:
             out.append(("C04", "damaged-reported-100"))
+        printed = getattr(self, "last_printed", None)
+        if printed and not intact and want_pct < 100 and \
+                any(x >= 100 for x in printed):
+            out.append(("C04", "damaged-printed-as-100"))
+        if printed and intact and abs(want_pct - 100) < 1e-9 and \
+                any(x != 100 for x in printed):
+            out.append(("C05", "intact-printed-below-100"))
         if abs(val - want_pct) > 1e-9:
             if fam in PADDED_V1 and 1e-9 < want_pct < 100 - 1e-9:
                 pass
@@ -516,10 +583,11 @@ class RecheckCheck:
                                                      linkroot):
                             continue
                         if where != "root" and dmg_set and \
-                                dmg_set[0][0] != "rm":
+                                dmg_set[0][0] != "rm" and not w.get("allcli"):
                             continue
                         if where.startswith("cli") and w["scale"] != "R":
                             continue
+                        self.last_printed = None
                         got = self.run_impl(mpath, cpath,
                                             cli=where.startswith("cli"))
                         res.transitions += 1
@@ -639,6 +707,10 @@ class RecheckCheck:
                 continue
             w = {"scale": g["scale"], "B": g["B"], "P": g["P"],
                  "shape": g["shape"], "sizes": sizes}
+            if g.get("cids"):
+                w["cids"] = g["cids"]
+            if g.get("allcli"):
+                w["allcli"] = True
             files = world.files_of(w, seed)
             singles = damages_for(files, g["P"],
                                   "R" if g.get("long") else g["scale"], None)
